@@ -143,10 +143,45 @@ func newKey(r *rt.Rand) []byte { return r.Bytes(32) }
 
 // verifyEvent checks every protected value of out against the original and the configuration given.
 // It returns "" or a description of the first mismatch.
+// classRedact: the sensitive class is overridden to redact (the override of a class replaces whatever operation a
+// tag of that class names); the secret class has no override, so the operations its tags name (Enc2: encrypt,
+// HmB: hmac-sha256) still apply - with the wrapper, salt and info in force for the event.
+var classRedact bool
+
 func verifyEvent(orig KPayload, out KPayload, encKey, hmacKey, salt, info []byte, otherKeys [][]byte) string {
 	if out.Pub != orig.Pub {
 		return fmt.Sprintf("public value changed: %q -> %q", orig.Pub, out.Pub)
 	}
+	if !classRedact {
+		return verifyEventSkipEnc(orig, out, encKey, hmacKey, salt, info, otherKeys)
+	}
+	for name, got := range map[string]string{"Enc": out.Enc, "Hm": out.Hm, "Hm2": out.Hm2} {
+		if got != cryp.Redacted {
+			return fmt.Sprintf("%s (class sensitive) must be redacted when the sensitive class is overridden to redact, got %.40q", name, got)
+		}
+	}
+	if orig.EncB != nil && string(out.EncB) != cryp.Redacted {
+		return fmt.Sprintf("EncB (class sensitive) must be redacted when the sensitive class is overridden to redact, got %.40q", out.EncB)
+	}
+	pt, err := cryp.Open(out.Enc2, encKey)
+	if err != nil || string(pt) != orig.Enc2 {
+		return fmt.Sprintf("Enc2 (secret,encrypt) does not decrypt to the original with the wrapper in force for the event: %v", err)
+	}
+	for _, ok := range otherKeys {
+		if _, err := cryp.Open(out.Enc2, ok); err == nil {
+			return "Enc2 also decrypts under a key that is not in force (no key separation)"
+		}
+	}
+	if orig.HmB != nil {
+		if want := cryp.Hmac(orig.HmB, hmacKey, salt, info); string(out.HmB) != want {
+			return fmt.Sprintf("HmB (secret,hmac-sha256) = %q, HMAC-SHA256 under the key/salt/info in force for the event is %q", out.HmB, want)
+		}
+	}
+	return ""
+}
+
+func verifyEventSkipEnc(orig KPayload, out KPayload, encKey, hmacKey, salt, info []byte, otherKeys [][]byte) string {
+	skipEnc := false
 	type ev struct {
 		name string
 		got  string
@@ -154,6 +189,9 @@ func verifyEvent(orig KPayload, out KPayload, encKey, hmacKey, salt, info []byte
 	}
 	for _, e := range []ev{{"Enc", out.Enc, []byte(orig.Enc)}, {"EncB", string(out.EncB), orig.EncB}, {"Enc2", out.Enc2, []byte(orig.Enc2)}} {
 		if e.name == "EncB" && orig.EncB == nil {
+			continue
+		}
+		if e.name == "Enc" && skipEnc {
 			continue
 		}
 		pt, err := cryp.Open(e.got, encKey)
@@ -220,6 +258,12 @@ func TestC16(t *testing.T) {
 		}
 		curW := cryp.NewWrapper(cur.key, kid("k0"))
 		f := &encrypt.Filter{Wrapper: curW, HmacSalt: cur.salt, HmacInfo: cur.info}
+		// in a quarter of the histories no class default needs a wrapper any more; the operations that fields and
+		// pointer tags name themselves still do, and they use the wrapper, salt and info in force for the event
+		classRedact = cr.Intn(4) == 0
+		if classRedact {
+			f.FilterOperationOverrides = map[encrypt.DataClassification]encrypt.FilterOperation{encrypt.SensitiveClassification: encrypt.RedactOperation}
+		}
 		var hist []string
 		oldKeys := [][]byte{}
 		run.Progress("C16 sequential history %d", i)
@@ -305,7 +349,7 @@ func TestC16(t *testing.T) {
 				withInfo := cr.Intn(2) == 0
 				desc := "event(plain)"
 				emptyID := false
-				withAttrs := cr.Intn(3) == 0
+				withAttrs := cr.Intn(3) == 0 && !classRedact // (the map's pointer tags are of the sensitive class)
 				var attrs TMap
 				var attrE, attrH string
 				if withAttrs {
@@ -412,7 +456,7 @@ func TestC16(t *testing.T) {
 						run.Add("values_verified", 2)
 					}
 				}
-				if got.Hm != got.Hm2 {
+				if got.Hm != got.Hm2 && !classRedact {
 					run.Violation("history-pattern:digest-not-deterministic", "equal inputs under equal keys gave different digests", wit(""))
 				}
 				run.Add("values_verified", 7)
@@ -424,6 +468,7 @@ func TestC16(t *testing.T) {
 		}
 	}
 
+	classRedact = false
 	// ---- concurrent rotation ------------------------------------------------------------------------------
 	nc := run.N(60, 3000)
 	for i := 0; i < nc && !run.Stop(); i++ {
@@ -435,6 +480,10 @@ func TestC16(t *testing.T) {
 		cfgs := make([]kcfg, total)
 		for k := range cfgs {
 			cfgs[k] = kcfg{n: k, key: newKey(cr), salt: []byte(fmt.Sprintf("salt-%d", k)), info: []byte(fmt.Sprintf("info-%d", k))}
+		}
+		if cr.Bool() {
+			// the filter starts without salt and info; the first rotation brings them
+			cfgs[0].salt, cfgs[0].info = nil, nil
 		}
 		f := &encrypt.Filter{Wrapper: cryp.NewWrapper(cfgs[0].key, "c0"), HmacSalt: cfgs[0].salt, HmacInfo: cfgs[0].info}
 		rotCall := make([]int64, total)
